@@ -51,6 +51,25 @@ def gen_sessions(rng, cfg, nsess):
         for _ in range(rng.randrange(1, 4)):
             gap = rng.choice([0, 0, 1, pf, 2 * pf])
             ln = max(1, rng.choice([1, pf - 1, pf, pf + 1, 2 * pf + 1]))
+            if rng.random() < 0.35:
+                # one rf_write_blocks call whose blocks lie in different file periods (in a later session some
+                # of them recorded already, others free): a refusal of any block must surface
+                nb = rng.choice([2, 2, 3])
+                G, D, off, g = [], [], 0, cur + gap
+                for _b in range(nb):
+                    bl = max(1, rng.choice([1, 2, pf - 1, pf]))
+                    G.append(g)
+                    D.append(off)
+                    off += bl
+                    g += bl + rng.choice([1, pf, 2 * pf, 3 * pf + 1])
+                ops.append(("b", off, tag, G, D))
+                ln = (G[-1] + (off - D[-1])) - (cur + gap)
+                a, b = start + cur + gap, start + cur + gap + ln - 1
+                lo = a if lo is None else min(lo, a)
+                hi = b if hi is None else max(hi, b)
+                cur += gap + ln
+                tag += off
+                continue
             ops.append(("w", cur + gap, ln, tag))
             a, b = start + cur + gap, start + cur + gap + ln - 1
             lo = a if lo is None else min(lo, a)
